@@ -1,9 +1,10 @@
 CONSTANTS
-  Codec = "range"
+  Codecs = {"range"}
   Law = "inv"
-  Alpha = {97}
-  MaxLen = 0
-  MaxItems = 2
+  Alphas <- AlphaInv
+  Lens <- LenInvQ
+  Items <- ItemsX
 INIT Init
-NEXT NoNext
+NEXT Next
+CHECK_DEADLOCK FALSE
 INVARIANT RangeAnyOrder
